@@ -483,6 +483,7 @@ func c40Case(c *vctx, name string, rng *vrng, variant int) error {
 		return fmt.Errorf("C40 parent backup: %w", err)
 	}
 	// snapshots with other path sets: a superset {src, extra} (a valid parent for {src}) and {extra} alone
+	targets := []string{"src"}
 	otherParent := variant%6 == 5
 	superset := variant%6 == 2
 	explicitParent := ""
@@ -494,6 +495,14 @@ func c40Case(c *vctx, name string, rng *vrng, variant int) error {
 		_ = os.WriteFile(filepath.Join(e.base, "extra", "x"), rng.bytes(20), 0o644)
 		if _, err := c40Backup(e, "src", "extra"); err != nil {
 			return fmt.Errorf("C40 superset backup: %w", err)
+		}
+		if rng.bool() {
+			// the run under test backs up {src, extra}: its parent must be the snapshot above, not the
+			// newer snapshot of {src} alone taken now
+			targets = []string{"src", "extra"}
+			if _, err := c40Backup(e, "src"); err != nil {
+				return fmt.Errorf("C40 src-only backup: %w", err)
+			}
 		}
 		if rng.bool() {
 			if _, err := c40Backup(e, "extra"); err != nil {
@@ -583,7 +592,7 @@ func c40Case(c *vctx, name string, rng *vrng, variant int) error {
 	if ic {
 		args = append(args, "--ignore-ctime")
 	}
-	incrID, err := c40Backup(e, append(args, "src")...)
+	incrID, err := c40Backup(e, append(args, targets...)...)
 	if err != nil {
 		return fmt.Errorf("C40 incremental backup: %w", err)
 	}
@@ -591,7 +600,7 @@ func c40Case(c *vctx, name string, rng *vrng, variant int) error {
 	if err != nil {
 		return err
 	}
-	fullID, err := c40Backup(e, "--force", "src")
+	fullID, err := c40Backup(e, append([]string{"--force"}, targets...)...)
 	if err != nil {
 		return fmt.Errorf("C40 forced backup: %w", err)
 	}
@@ -629,9 +638,11 @@ func c40Case(c *vctx, name string, rng *vrng, variant int) error {
 	if usedParent != nil {
 		parS, err := c40Snapshot(e, names, usedParent.String(), src, nil)
 		if err != nil {
-			return err
+			// a parent without src (wrongly selected): nothing pairs; the selection case reports it
+			parTerm = "(Some (NDir []))"
+		} else {
+			parTerm, parN = "(Some "+parS.term+")", parS.n
 		}
-		parTerm, parN = "(Some "+parS.term+")", parS.n
 	}
 	// parent selection case
 	{
@@ -645,6 +656,10 @@ func c40Case(c *vctx, name string, rng *vrng, variant int) error {
 				it[i] = coqN(uint64(pathKey[p]))
 			}
 			return coqList(it)
+		}
+		var absTargets []string
+		for _, t := range targets {
+			absTargets = append(absTargets, filepath.Join(e.base, t))
 		}
 		idKey := map[restic.ID]int{}
 		var sl []string
@@ -665,7 +680,7 @@ func c40Case(c *vctx, name string, rng *vrng, variant int) error {
 			obs = "(Some " + coqN(uint64(idKey[*usedParent])) + ")"
 		}
 		c.Case("parent-selection", len(snapsBefore) > 2, len(snapsBefore),
-			fmt.Sprintf("CParent %s %s false %s %s", coqList(sl), pk([]string{src}), expl, obs),
+			fmt.Sprintf("CParent %s %s false %s %s", coqList(sl), pk(absTargets), expl, obs),
 			fmt.Sprintf("snapshots before=%d (superset=%v other-dir=%v) explicit=%v -> parent used: %s", len(snapsBefore), superset, otherParent, explicitParent != "", obs))
 	}
 	srcT, err := c40SourceTerm(names, src, "", contents)
